@@ -5,8 +5,11 @@
 //! trusted: R15/R18 (deep slices of the function-local macro handle_in_flight_updates!): the predicate of the `.filter` that counts completed in-flight updates (the statement that tracks the maximum id is dropped) and the `replay` predicate of the `.retain`; the pushes of the background events and the bookkeeping around them are dropped and not claimed
 //! trusted: R15 (deep slices): process_background_events: the match that acts on one background event (R5: the manager is a stub whose three callees record their arguments in a ghost log; `&self` written `&mut self`) and the empty / non-empty result; PersistenceNotifierGuard::optionally_notify: the match that combines the operation's and the background events' notification, verbatim; handle_post_event_actions: the statements of the ReleasePaymentComplete arm that advance the closed channel's update id, build the update and test whether start-up is finished (ChannelMonitorUpdate instantiated as the skeleton PostCloseUpdate, R5); BackgroundEvent and NotifyOption are extracted (PublicKey, ChannelId, OutPoint, ChannelMonitorUpdate skeletons)
 //! trusted: R15 (deep slices) of from_channel_manager_data, stale-manager branch: the loop body that queues the HTLCs force_shutdown handed back, the `if !found_htlc` block (the logger statements in front of the push are dropped) and the value the closed channel's update-id entry takes (`and_modify` closure body and `or_insert` argument; the HashMap entry chain is dropped), verbatim as functions
+//! trusted: R15 (captures): the PersistenceNotifierGuard constructor named in blocks_disconnected / transactions_confirmed / best_block_updated / transaction_unconfirmed of ChannelManager, compared by macro with the one constructor that does not run process_background_events
 //! assume: nothing here decides the crash-point quantifier of C10 (every prefix of the sequence of durable writes): that is a whole-history statement outside function contracts; only the listed statements of the recovery path are decided
 use vstd::prelude::*;
+// which constructor of PersistenceNotifierGuard a method uses: only this one does not run process_background_events
+macro_rules! guard_ctor_skips_background_events { (optionally_notify_skipping_background_events) => { true }; ($other:ident) => { false }; }
 verus! {
 pub struct MonitorUpdate { pub update_id: u64 }
 pub struct PendingUpdate { pub update: MonitorUpdate }
@@ -247,6 +250,43 @@ pub struct Chan { pub context: Ctx }
     r == latest_update_id,
 //@end
 }
+// ---- chain notifications reach the manager during start-up, before the background events may run: they must use the guard that skips them ----
+//@extract lightning/src/ln/channelmanager.rs :: impl chain::Listen for ChannelManager :: fn blocks_disconnected
+//@slice R15
+    let _persistence_guard = PersistenceNotifierGuard::$ctor:ident(
+//@with
+    fn blocks_disconnected_does_not_run_background_events() -> bool { guard_ctor_skips_background_events!($ctor) }
+//@ret r
+//@ensures P C10 telling-the-manager-of-a-disconnection-which-also-happens-during-start-up-before-the-chain-monitor-is-ready-never-runs-the-background-events
+    r,
+//@end
+//@extract lightning/src/ln/channelmanager.rs :: impl chain::Confirm for ChannelManager :: fn transactions_confirmed
+//@slice R15
+    let _persistence_guard = PersistenceNotifierGuard::$ctor:ident(
+//@with
+    fn transactions_confirmed_does_not_run_background_events() -> bool { guard_ctor_skips_background_events!($ctor) }
+//@ret r
+//@ensures P C10 telling-the-manager-of-confirmed-transactions-which-also-happens-during-start-up-before-the-chain-monitor-is-ready-never-runs-the-background-events
+    r,
+//@end
+//@extract lightning/src/ln/channelmanager.rs :: impl chain::Confirm for ChannelManager :: fn best_block_updated
+//@slice R15
+    let _persistence_guard = PersistenceNotifierGuard::$ctor:ident(
+//@with
+    fn best_block_updated_does_not_run_background_events() -> bool { guard_ctor_skips_background_events!($ctor) }
+//@ret r
+//@ensures P C10 telling-the-manager-of-a-new-best-block-which-also-happens-during-start-up-before-the-chain-monitor-is-ready-never-runs-the-background-events
+    r,
+//@end
+//@extract lightning/src/ln/channelmanager.rs :: impl chain::Confirm for ChannelManager :: fn transaction_unconfirmed
+//@slice R15
+    let _persistence_guard = PersistenceNotifierGuard::$ctor:ident(
+//@with
+    fn transaction_unconfirmed_does_not_run_background_events() -> bool { guard_ctor_skips_background_events!($ctor) }
+//@ret r
+//@ensures P C10 telling-the-manager-of-an-unconfirmed-transaction-which-also-happens-during-start-up-before-the-chain-monitor-is-ready-never-runs-the-background-events
+    r,
+//@end
 pub struct MonitorStub { pub latest: u64 }
 impl MonitorStub { #[verifier::external_body] pub fn get_latest_update_id(&self) -> (r: u64) ensures r == self.latest { unimplemented!() } }
 }
